@@ -492,6 +492,22 @@ pub fn colliding_ids(kind: u8) -> Vec<(String, String)> {
                 }
             }
         }
+        // ONE long-lived authenticator whose store entry is replaced under the same id by a credential
+        // with another key (a restore, a key rotation by sync) between two assertions
+        {
+            let store = Shared::new(RefStore::with(vec![with_key(1, 1, "a.example", Some(3))]));
+            let mut auth = mk(store.clone(), false);
+            for (round, key_of) in [(0u8, 1u8), (1, 9), (2, 17), (3, 1)] {
+                store.0.lock().unwrap().items[0] = with_key(1, key_of, "a.example", Some(3 + u32::from(round)));
+                let req = ga_request("a.example", Some(vec![cred_id(1)]), false, true, true, false, None);
+                let hash = req.client_data_hash.to_vec();
+                match poll_n(auth.get_assertion(req), None) {
+                    Polled::Done { value: Ok(resp), .. } => verify(&mut out, &format!("one authenticator, entry replaced (assertion #{round})"), key_of, "a.example", &resp, &hash),
+                    Polled::Done { value: Err(e), .. } => out.push(("assertion-fails".into(), format!("one authenticator, entry replaced (assertion #{round}): {e:?}"))),
+                    _ => out.push(("stuck".into(), "assertion never completes".into())),
+                }
+            }
+        }
         // the U2F face of the same: handle H registered, used, registered again (new key), used
         let s = Shared::new(RefStore::new());
         let mut auth = mk(s.clone(), false);
